@@ -259,7 +259,7 @@ class RawClient:
             self.conn.srv.onClose(True, 1000, "")
 
 
-def run(P, on_step=None, setup=None, at_stable=None):
+def run(P, on_step=None, setup=None, at_stable=None, adversary=None, on_idle=None):
     """run one mailbox-world case; returns Rec.  `setup(rec)` may install extra
     things (MITM etc.) after the clients exist; `on_step(rec)` runs after every step."""
     P = dict(default_params(), **P)
@@ -268,14 +268,14 @@ def run(P, on_step=None, setup=None, at_stable=None):
     rec.world = W
     tape = Tape(P["tape"])
     try:
-        _run(P, rec, W, tape, on_step, setup, at_stable)
+        _run(P, rec, W, tape, on_step, setup, at_stable, adversary, on_idle)
     finally:
         W.close()
     rec.errors = W.error_summaries()
     return rec
 
 
-def _run(P, rec, W, tape, on_step, setup, at_stable):
+def _run(P, rec, W, tape, on_step, setup, at_stable, adversary=None, on_idle=None):
     mode = P["mode"]
     ws = rec.ws
     for i in range(2):
@@ -534,9 +534,13 @@ def _run(P, rec, W, tape, on_step, setup, at_stable):
                 for g in gets_pending[i]:
                     choices.append((2, ("app", ("get", i, g))))
         choices.extend(adversary_choices())
+        if adversary is not None:
+            choices.extend(adversary(rec, tape))
         if not choices:
             nt = W.next_timer()
             if nt is None:
+                if on_idle is not None and on_idle(rec):
+                    continue
                 break
             W.clock.advance(nt - W.clock.seconds())
             continue
@@ -549,6 +553,8 @@ def _run(P, rec, W, tape, on_step, setup, at_stable):
                     _request_get(rec, it[1], it[2])
                 else:
                     do_intent(it)
+            elif e[0] == "adv.custom":
+                e[1](tape)
             elif e[0].startswith("adv."):
                 do_adv(e)
             else:
